@@ -323,6 +323,18 @@ func genExpr(r *hx.Rand, d int, cfg genCfg) string {
 			return genExpr(r, d-1, cfg) + ws(r) + op + ws(r) + genSmallInt(r)
 		}
 		return genExpr(r, d-1, cfg) + ws(r) + op + ws(r) + genExpr(r, d-1, cfg)
+	case k < 14 && r.Intn(2) == 0:
+		// parentheses that carry meaning: a looser operator grouped under a tighter (or equal, on the right) one
+		inner := genExpr(r, d-1, cfg) + ws(r) + hx.Pick(r, []string{"&", "=", "!=", "<", ">=", "+", "-", "*", "/"}) + ws(r) + genExpr(r, d-1, cfg)
+		outer := hx.Pick(r, []string{"&", "=", "<=", "+", "-", "*", "/", "^"})
+		grouped := "(" + ws(r) + inner + ws(r) + ")"
+		if outer == "^" {
+			return grouped + ws(r) + "^" + ws(r) + genSmallInt(r)
+		}
+		if r.Bool() {
+			return grouped + ws(r) + outer + ws(r) + genExpr(r, d-1, cfg)
+		}
+		return genExpr(r, d-1, cfg) + ws(r) + outer + ws(r) + grouped
 	case k < 14:
 		// anonymous function, usually as an argument of foreach/filter
 		n := r.Range(1, 2)
@@ -543,6 +555,12 @@ Import ListNotations.
 Open Scope N_scope.
 Definition cases : list pcase := [`
 
+const refHeader = `From Coq Require Import List NArith Bool.
+From Verif Require Import model.ExSyntax model.ExRefactorCorr.
+Import ListNotations.
+Open Scope N_scope.
+Definition cases : list rcase := [`
+
 const footer = "].\nDefinition M := Eval vm_compute in mismatches cases.\nPrint M."
 
 func validInput(s string) bool { return utf8.ValidString(s) && !strings.ContainsRune(s, 0) }
@@ -558,6 +576,39 @@ func main() {
 	}
 
 	parseSh := &exsx.Sharder{O: o, Res: res, Prefix: "C11p", Header: parseHeader, Footer: footer, Shard: 300}
+	refSh := &exsx.Sharder{O: o, Res: res, Prefix: "C11r", Header: refHeader, Footer: footer, Shard: 250}
+	// one correspondence case for refactor.Template
+	addRef := func(tpl string, tops []string, mode int, from, to, out string, hasErr bool) {
+		var vals strings.Builder
+		var fold []string
+		seen := map[string]bool{}
+		excellent.VisitTemplate(tpl, tops, false, func(tt excellent.XTokenType, tok string) error {
+			if tt == excellent.BODY {
+				return nil
+			}
+			if p, err := excellent.Parse(tok, nil); err == nil {
+				p.Visit(func(e excellent.Expression) {
+					switch n := e.(type) {
+					case *excellent.TextLiteral:
+						vals.WriteString(n.Value.Native())
+					case *excellent.ContextReference:
+						if mode == 2 && strings.EqualFold(n.Name, from) && !seen[n.Name] {
+							seen[n.Name] = true
+							fold = append(fold, n.Name)
+						}
+					}
+				})
+			}
+			return nil
+		})
+		if !utf8.ValidString(vals.String()) || !validInput(out) {
+			return
+		}
+		refSh.Add(fmt.Sprintf("{| r_tops := %s; r_in := %s; r_ln := %s; r_low := %s; r_print := %s; r_mode := %d; r_fold := %s; r_to := %s; r_out := %s; r_err := %s |}",
+			exsx.OptTexts(tops, tops == nil), hx.Str(tpl), exsx.RuneSet(exsx.IsLN, tpl), exsx.RuneMap(unicode.ToLower, tpl, strings.Join(tops, ""), to),
+			exsx.RuneSet(unicode.IsPrint, vals.String()), mode, hx.List(fold, hx.Str), hx.Str(to), hx.Str(out), hx.Bool(hasErr)),
+			map[string]any{"template": tpl, "mode": mode, "from": from, "to": to}, map[string]any{"out": out, "err": hasErr})
+	}
 
 	type parsed struct {
 		src  string
@@ -778,10 +829,12 @@ func main() {
 		// R2
 		res.OracleChecks++
 		out0, err0 := refactor.Template(tpl, ctxKeys, idUnchanged)
+		addRef(tpl, ctxKeys, 0, "", "", out0, err0 != nil)
 		if err0 == nil && out0 != tpl {
 			res.Fail("identity-rewrite:unchanged-transformation-changes-text", map[string]any{"template": tpl, "rewritten": out0}, "a transformation that reports no change must return the template verbatim")
 		}
 		out1, err1 := refactor.Template(tpl, ctxKeys, idChanged)
+		addRef(tpl, ctxKeys, 1, "", "", out1, err1 != nil)
 		if err1 == nil {
 			for k := 0; k < 3; k++ {
 				ctx := randContext(rt, true)
@@ -818,6 +871,14 @@ func main() {
 		}
 		res.OracleChecks++
 		out2, err2 := refactor.Template(tpl, ctxKeys, refactor.ContextRefRename(from, to))
+		addRef(tpl, ctxKeys, 2, from, to, out2, err2 != nil)
+		if rt.Intn(4) == 0 {
+			// the shapes of the migrations: a nil / one-element allowed list, a dotted replacement
+			tops2 := hx.Pick(rt, [][]string{nil, {"foo"}, {"webhook", "foo"}})
+			to2 := hx.Pick(rt, []string{"foo.json", "Bar", "x"})
+			out3, err3 := refactor.Template(tpl, tops2, refactor.ContextRefRename(from, to2))
+			addRef(tpl, tops2, 2, from, to2, out3, err3 != nil)
+		}
 		if err2 != nil {
 			res.Dist("template:rename-error")
 			continue
@@ -890,5 +951,6 @@ func main() {
 		}
 	}
 
+	refSh.Flush()
 	res.Write(o)
 }
